@@ -13,7 +13,7 @@ CFGS = [("native", {}), ("native", {"SODIUM_VERIF_CPUID1_ECX_CLEAR": "0x10000000
 def run(R):
     thorough = R.tier == "thorough"
     R.build_all(sorted({v for v, _ in CFGS}))
-    nrand = 600 if thorough else 40
+    nrand = 2500 if thorough else 40
     merged = {}
     order = []
     for i, (variant, env) in enumerate(CFGS):
